@@ -746,6 +746,7 @@ class ProcedureBindingPattern(Pattern):
     def __init__(self):
         super().__init__(
             r'^procedure\b'  # Match ``procedure`` keyword
+            r'(?:[ \t]*\([ \t]*\w+[ \t]*\))?'  # Optional interface name (deferred bindings)
             r'(?P<attributes>(?:[ \t]*,[ \t]*\w+)*?)'  # Optional attributes
             r'(?:[ \t]*::)?'  # Optional `::` delimiter
             r'[ \t]*'  # Some white space
@@ -845,7 +846,8 @@ class ImportPattern(Pattern):
 
     def __init__(self):
         super().__init__(
-            r'^use +(?P<module>\w+)(?: *, *(?P<only>only *:)?'  # The use statement including an optional ``only``
+            r'^use(?: *(?:, *(?P<nature>(?:non_)?intrinsic) *)?:: *| +)'  # The use keyword with optional module nature and ``::``
+            r'(?P<module>\w+)(?: *, *(?P<only>only *:)?'  # The module name including an optional ``only``
             r'(?P<imports>(?: *\w+\b *(?:=> *\w+|\(.*?\))? *,?)+))?',  # The optional list of names (w/ renames, ops)
             re.IGNORECASE
         )
@@ -894,8 +896,9 @@ class ImportPattern(Pattern):
             rename_list = None
             symbols = None
 
+        nature = match['nature'].upper() if match['nature'] else None
         return ir.Import(
-            module, symbols=as_tuple(symbols), rename_list=as_tuple(rename_list),
+            module, symbols=as_tuple(symbols), rename_list=as_tuple(rename_list), nature=nature,
             source=reader.source_from_current_line()
         )
 
@@ -964,7 +967,7 @@ class CallPattern(Pattern):
     def __init__(self):
         super().__init__(
             r'^(?P<conditional>if[ \t]*\(.*?\)[ \t]*)?'  # Optional inline-conditional preceeding the call
-            r'call',  # Call keyword
+            r'call[ \t]+(?=[a-z])',  # Call keyword, followed by a name (and not e.g. the variable ``callback``)
             re.IGNORECASE
         )
 
